@@ -34,7 +34,7 @@ def make_function(b, kind, vis, payable, body, underscore, modifier=False, name=
     elif order:
         attrs = attrs[order % max(len(attrs), 1):] + attrs[:order % max(len(attrs), 1)]
     nm = None
-    if kind in ('Function', 'Modifier'):
+    if kind in ('Function', 'Modifier') and name != '<unnamed>':
         nm = name or (('_' if underscore else '') + fresh('fn'))
     blk = b.block([b.expr_stmt(b.var('x'))]) if body else None
     return b.function(kind, nm, [], attrs, blk)
@@ -94,6 +94,12 @@ def cases(chk):
         out.append(('fn %s %s payable=%s _=%s attribute order %s' % (kind, vis, payable, us, order),
                     lambda b, a=(kind, vis, payable, us, order): file_of(b, [('contract', 'Contract', [
                         make_function(b, a[0], a[1], a[2], True, a[3], modifier=True, order=a[4])])])))
+    # the pre-0.6 fallback spelling `function() external payable {}`: kind Function without a name
+    for vis, payable, body in itertools.product(('external', 'public', 'internal', None), (False, True), (True, False)):
+        out.append(('unnamed legacy fallback %s payable=%s body=%s' % (vis, payable, body),
+                    lambda b, a=(vis, payable, body): file_of(b, [('contract', 'Contract', [
+                        make_function(b, 'Function', 'public', False, True, False),
+                        make_function(b, 'Function', a[0], a[1], a[2], False, name='<unnamed>')])])))
     for vis, us in itertools.product(VIS, (False, True)):
         out.append(('free fn %s _=%s' % (vis, us), lambda b, a=(vis, us): file_of(b, [('free', make_function(b, 'Function', a[0], False, True, a[1])),
                                                                                         ('contract', 'Contract', [])])))
@@ -158,7 +164,7 @@ def body(chk):
     idx = list(range(n))
     if chk.quick:
         chk.rng.shuffle(idx)
-        core = [i for i, (l, _) in enumerate(cases(chk)) if l.startswith(('members', 'contracts', 'free function')) or 'attribute order' in l]
+        core = [i for i, (l, _) in enumerate(cases(chk)) if l.startswith(('members', 'contracts', 'free function', 'unnamed legacy')) or 'attribute order' in l]
         idx = sorted(set(core) | set(idx[:260]))
     chk.bounds = {'files': '%d of %d declaration shapes x 5 detectors' % (len(idx), n),
                   'shapes': 'function kind x visibility x payable x body x underscore x contract kind; variable type x visibility x constant/immutable x underscore; '
